@@ -305,6 +305,11 @@ func ctorResult(fn *ssa.Function, v ssa.Value, method string, i int64) bool {
 	} else if f := c.Call.StaticCallee(); f != nil && len(c.Call.Args) > 0 {
 		name = f.Name()
 		recv = c.Call.Args[0]
+		// a wrapper of the CLI package around the constructor: parseVersion(e, s) = e.NewVersion(s) with the
+		// error re-worded
+		if m, ep, sp, ok := parseWrapper(f); ok && m == method && len(c.Call.Args) > max(ep, sp) {
+			return len(fn.Params) >= 2 && c.Call.Args[ep] == ssa.Value(fn.Params[0]) && isElemLoad(c.Call.Args[sp], fn.Params[1], i)
+		}
 	}
 	if name != method || len(fn.Params) < 2 {
 		return false
@@ -320,6 +325,64 @@ func ctorResult(fn *ssa.Function, v ssa.Value, method string, i int64) bool {
 		args = args[1:]
 	}
 	return len(args) == 1 && isElemLoad(args[0], fn.Params[1], i)
+}
+
+// parseWrapper: g(e, s) returns (x, nil) only with x the first result of e.<method>(s), and otherwise an
+// error: the constructor's result handed through
+func parseWrapper(g *ssa.Function) (method string, ecoParam, strParam int, ok bool) {
+	if g == nil || g.Blocks == nil || g.Signature.Results().Len() != 2 || len(g.Params) != 2 {
+		return "", 0, 0, false
+	}
+	if o := g.Origin(); o != nil && o.Pkg == nil {
+		return "", 0, 0, false
+	}
+	n := 0
+	for _, b := range g.Blocks {
+		ret, isRet := b.Instrs[len(b.Instrs)-1].(*ssa.Return)
+		if !isRet {
+			continue
+		}
+		if !isNilConst(ret.Results[1]) {
+			continue // an error return: whatever the value is, R-PAIR of C06 judges it
+		}
+		ex, isEx := ret.Results[0].(*ssa.Extract)
+		if !isEx || ex.Index != 0 {
+			return "", 0, 0, false
+		}
+		c, isCall := ex.Tuple.(*ssa.Call)
+		if !isCall {
+			return "", 0, 0, false
+		}
+		var name string
+		var recv ssa.Value
+		var args []ssa.Value
+		if c.Call.IsInvoke() {
+			name, recv, args = c.Call.Method.Name(), c.Call.Value, c.Call.Args
+		} else if f := c.Call.StaticCallee(); f != nil && len(c.Call.Args) > 0 {
+			name, recv, args = f.Name(), c.Call.Args[0], c.Call.Args[1:]
+		}
+		if ct, isCT := recv.(*ssa.ChangeInterface); isCT {
+			recv = ct.X
+		}
+		ep, sp := -1, -1
+		for i, prm := range g.Params {
+			if recv == ssa.Value(prm) {
+				ep = i
+			}
+			if len(args) == 1 && args[0] == ssa.Value(prm) {
+				sp = i
+			}
+		}
+		if name == "" || ep < 0 || sp < 0 || !errNilEdgeDominates(c, b) {
+			return "", 0, 0, false
+		}
+		if method != "" && (method != name || ecoParam != ep || strParam != sp) {
+			return "", 0, 0, false
+		}
+		method, ecoParam, strParam = name, ep, sp
+		n++
+	}
+	return method, ecoParam, strParam, n > 0
 }
 
 func ruleCLIArgs(p *Prog, r *Report) {
@@ -549,6 +612,22 @@ func lineSafe(v ssa.Value, seen map[ssa.Value]bool, why *string) bool {
 		switch f.String() {
 		case "strings.TrimSpace":
 			return lineSafe(x.Call.Args[0], seen, why)
+		case "strings.Join":
+			// every element put into the list and the separator
+			if !lineSafe(x.Call.Args[1], seen, why) {
+				return false
+			}
+			elems, ok := listElements(x.Call.Args[0], map[ssa.Value]bool{})
+			if !ok {
+				*why = "joins a list whose elements cannot be enumerated"
+				return false
+			}
+			for _, el := range elems {
+				if !lineSafe(el, seen, why) {
+					return false
+				}
+			}
+			return true
 		case "fmt.Sprintf":
 			format, ok := constString(x.Call.Args[0])
 			if !ok {
@@ -617,6 +696,78 @@ func lineSafe(v ssa.Value, seen map[ssa.Value]bool, why *string) bool {
 	}
 	*why = fmt.Sprintf("unrecognised string source %T", v)
 	return false
+}
+
+// listElements: every value ever put into the locally built string list v (appends and indexed stores)
+func listElements(v ssa.Value, seen map[ssa.Value]bool) ([]ssa.Value, bool) {
+	if seen[v] {
+		return nil, true
+	}
+	seen[v] = true
+	switch x := v.(type) {
+	case *ssa.Const:
+		return nil, x.Value == nil
+	case *ssa.MakeSlice:
+		var out []ssa.Value
+		for _, ref := range *x.Referrers() {
+			switch r := ref.(type) {
+			case *ssa.IndexAddr:
+				for _, r2 := range *r.Referrers() {
+					if st, ok := r2.(*ssa.Store); ok && st.Addr == ssa.Value(r) {
+						out = append(out, st.Val)
+					} else if _, isLoad := r2.(*ssa.UnOp); !isLoad {
+						return nil, false
+					}
+				}
+			case *ssa.Call, *ssa.Phi, *ssa.DebugRef, *ssa.Slice, *ssa.Store:
+			default:
+				return nil, false
+			}
+		}
+		return out, true
+	case *ssa.Phi:
+		var out []ssa.Value
+		for _, ed := range x.Edges {
+			els, ok := listElements(ed, seen)
+			if !ok {
+				return nil, false
+			}
+			out = append(out, els...)
+		}
+		return out, true
+	case *ssa.Call:
+		if bi, ok := x.Call.Value.(*ssa.Builtin); ok && bi.Name() == "append" {
+			base, ok := listElements(x.Call.Args[0], seen)
+			if !ok {
+				return nil, false
+			}
+			if len(x.Call.Args) == 2 {
+				ops := varargOperands(x.Call.Args[1])
+				if ops == nil {
+					return nil, false
+				}
+				base = append(base, ops...)
+			}
+			return base, true
+		}
+	case *ssa.Slice:
+		if al, ok := x.X.(*ssa.Alloc); ok {
+			// a literal []string{...}
+			var out []ssa.Value
+			for _, ref := range *al.Referrers() {
+				if ia, ok := ref.(*ssa.IndexAddr); ok {
+					for _, r2 := range *ia.Referrers() {
+						if st, ok := r2.(*ssa.Store); ok && st.Addr == ssa.Value(ia) {
+							out = append(out, st.Val)
+						}
+					}
+				}
+			}
+			return out, true
+		}
+		return listElements(x.X, seen)
+	}
+	return nil, false
 }
 
 func varargOperands(v ssa.Value) []ssa.Value {
